@@ -12,7 +12,8 @@ value stays in the function's domain):
     r3 = f(bufs)
     fresh = f(copies of bufs)         a first call as far as the function can tell
 
-Oracle: r2 == fresh and r3 == fresh, bit for bit (NaN == NaN). Exceptions are not judged here (the
+Oracle: r2 == fresh and r3 == fresh, bit for bit (NaN == NaN), and r1 - unless it is a view of an
+argument - still holds after the second call what it held when it was returned. Exceptions are not judged here (the
 single-call checks of each module do that): the history is abandoned and counted as not applicable.
 """
 import numpy as np
@@ -45,6 +46,16 @@ def _same(a, b):
     return True
 
 
+def _aliases(r, bufs):
+    """A result that is (a view of) an argument legitimately changes with the argument."""
+    for x in _leaves(r):
+        if isinstance(x, np.ndarray):
+            for b in bufs:
+                if isinstance(b, np.ndarray) and np.shares_memory(x, b):
+                    return True
+    return False
+
+
 def reuse_check(fn, args, kwargs=None):
     """Returns ("n/a", None) when the history cannot be driven, ("ok", None) when consistent, or
     ("stale", detail)."""
@@ -62,6 +73,7 @@ def reuse_check(fn, args, kwargs=None):
     try:
         with np.errstate(all="ignore"):
             r1 = fn(*bufs, **kwargs)
+            s1 = _snapshot(r1)
             changed = False
             for b in arrays:
                 rev = b[::-1].copy()
@@ -71,6 +83,7 @@ def reuse_check(fn, args, kwargs=None):
             if not changed:
                 return "n/a", None
             r2 = _snapshot(fn(*bufs, **kwargs))
+            r1_later = _snapshot(r1)
             for x in _leaves(r1):
                 if isinstance(x, np.ndarray) and x.flags.writeable and x.dtype.kind in "fc" and x.size:
                     x *= 3.0
@@ -78,6 +91,9 @@ def reuse_check(fn, args, kwargs=None):
             fresh = _snapshot(fn(*[b.copy(order="K") if isinstance(b, np.ndarray) else b for b in bufs], **kwargs))
     except Exception:
         return "n/a", None
+    if not _same(r1_later, s1) and not _aliases(r1, bufs):
+        return "stale", {"history": "the result of the first call changed when the function was called again",
+                         "n_results": len(s1)}
     if not _same(r2, fresh):
         return "stale", {"history": "second call with the same argument objects after an in-place update",
                          "n_results": len(fresh)}
